@@ -58,6 +58,7 @@ type e2eCfg struct {
 	quiet     bool
 	relays    int  // number of trzsz relays (jump hosts) between the client and the server
 	tunnel    bool // give the client (and the relays) a tunnel connector (TCP on 127.0.0.1)
+	hookTunnel bool // the client's tunnel connection goes through the hook as well (same direction counters)
 	hook      e2eHook
 	// events triggered by the harness while the transfer runs
 	onStart func(r *e2eRun)
@@ -67,6 +68,25 @@ type e2eCfg struct {
 	startWait time.Duration
 	// C17: a scripted tunnel connector for the client (overrides the one `tunnel` installs); nil = none
 	connector func(port int) net.Conn
+	// C17 (relay): a scripted tunnel connector for the relays (overrides the one `tunnel` installs); nil = none
+	relayConnector func(port int) net.Conn
+	// C17 (relay): called, synchronously, with every chunk the relay chain hands to the client before the
+	// client sees it (blocking in it holds the chunk back); nil = none
+	relayTap func(b []byte)
+}
+
+// e2eTapReader lets the harness see (and hold back) what the client is about to read
+type e2eTapReader struct {
+	r   io.Reader
+	tap func(b []byte)
+}
+
+func (t *e2eTapReader) Read(p []byte) (int, error) {
+	n, err := t.r.Read(p)
+	if n > 0 {
+		t.tap(append([]byte(nil), p[:n]...))
+	}
+	return n, err
 }
 
 type e2eRun struct {
@@ -303,11 +323,27 @@ func runTransfer(cfg e2eCfg, src []string, dest string) e2eResult {
 		if cfg.tunnel {
 			relay.SetTunnelConnector(connector)
 		}
+		if cfg.relayConnector != nil {
+			relay.SetTunnelConnector(cfg.relayConnector)
+		}
 		upIn, upOut = aW, bR
+	}
+	if cfg.relayTap != nil {
+		upOut = &e2eTapReader{upOut, cfg.relayTap}
 	}
 	filter := trzsz.NewTrzszFilter(cliInR, termWriter{r}, upIn, upOut, trzsz.TrzszOptions{TerminalColumns: 100})
 	if cfg.tunnel {
-		filter.SetTunnelConnector(connector)
+		if cfg.hookTunnel {
+			filter.SetTunnelConnector(func(port int) net.Conn {
+				conn := connector(port)
+				if conn == nil {
+					return nil
+				}
+				return newHookedConn(r, conn)
+			})
+		} else {
+			filter.SetTunnelConnector(connector)
+		}
 	}
 	r.filter = filter
 	if cfg.connector != nil {
@@ -516,3 +552,44 @@ func lineTypes(wire []byte) []string {
 	}
 	return out
 }
+
+// hookedConn is the client's end of a tunnel connection whose two directions pass through the
+// run's hook (and its counters) exactly like the in-band link does.
+type hookedConn struct {
+	net.Conn
+	r  *e2eRun
+	pr *io.PipeReader
+	pw *io.PipeWriter
+}
+
+func newHookedConn(r *e2eRun, conn net.Conn) *hookedConn {
+	pr, pw := io.Pipe()
+	h := &hookedConn{Conn: conn, r: r, pr: pr, pw: pw}
+	go func() {
+		buf := make([]byte, 32*1024)
+		for {
+			n, err := conn.Read(buf)
+			if n > 0 {
+				b := append([]byte(nil), buf[:n]...)
+				r.deliver(dirS2C, b, func(c []byte) error { _, e := pw.Write(c); return e }, func() { pw.Close() })
+			}
+			if err != nil {
+				pw.CloseWithError(err)
+				return
+			}
+		}
+	}()
+	return h
+}
+
+func (h *hookedConn) Read(p []byte) (int, error) { return h.pr.Read(p) }
+func (h *hookedConn) Write(p []byte) (int, error) {
+	b := rewriteACT(append([]byte(nil), p...), h.r.cfg.proto)
+	var werr error
+	h.r.deliver(dirC2S, b, func(c []byte) error { _, werr = h.Conn.Write(c); return werr }, func() { h.Conn.Close() })
+	if werr != nil {
+		return 0, werr
+	}
+	return len(p), nil
+}
+func (h *hookedConn) Close() error { h.pr.Close(); return h.Conn.Close() }
